@@ -372,9 +372,20 @@ class Expander:
 
     # -- statements --------------------------------------------------------------------
     def _block(self, stmts, env):
+        pushed = 0
         for st in stmts:
             self.env_at[id(st)] = dict(env)
             env = self._stmt(st, env)
+            # `if c: continue` -- the rest of this block runs only if not c (the same as putting the rest into an else-branch)
+            if isinstance(st, ast.If):
+                c1 = bool(st.body) and isinstance(st.body[-1], ast.Continue)
+                c2 = bool(st.orelse) and isinstance(st.orelse[-1], ast.Continue)
+                if c1 != c2:
+                    g = self._tr(st.test)
+                    self.guard_stack.append(T("not", None, [g]) if c1 else g)
+                    pushed += 1
+        for _ in range(pushed):
+            self.guard_stack.pop()
         return env
 
     def merged_return(self) -> Optional["T"]:
